@@ -19,7 +19,7 @@ PairSet(s) == {<<s[i][1], Rat2(s[i][2])>> : i \in 1..Len(s)}
 \* logged answer -> the vocabulary of Answer()
 NormAns(k, a) ==
     CASE k[1] = "conv" -> IF a[1] = "ok" THEN <<"ok", Rat2(a[2])>> ELSE <<a[1], Zero>>
-      [] k[1] \in {"base", "gbase", "root"} -> IF a[1] = "ok" THEN <<"ok", Rat2(a[2]), PairSet(a[3])>> ELSE <<a[1], Zero, {}>>
+      [] k[1] \in {"base", "gbase", "sbase", "root"} -> IF a[1] = "ok" THEN <<"ok", Rat2(a[2]), PairSet(a[3])>> ELSE <<a[1], Zero, {}>>
       [] k[1] = "compat" -> {a[2][i] : i \in 1..Len(a[2])}
 Key(k) == <<k[1], k[2], k[3]>>
 AnswerOK(act, e, s, pr) ==
